@@ -31,7 +31,9 @@ def run(ck):
         traces.append(dbgen.gen_launch_evolve_trace(ck.rng))
     for _ in range(60 if ck.tier == "quick" else 3000):
         traces.append(dbgen.gen_launch_idle_trace(ck.rng))     # launch accepted with nothing left to wait for; only idle reports afterwards
+    nrev = 30 if ck.tier == "quick" else 600
     ncorp = len(dbprops.load_corpus("C09"))
     traces = traces[:ncorp] + [dbgen.with_lag(ck.rng, t, 0.4) for t in traces[ncorp:]]    # a follower lagging across launch / clearing / deadline
+    traces += [dbgen.gen_failstop_revive_trace(ck.rng) for _ in range(nrev)]        # (no lag / forks here: they would replace the kept snapshot)
     dbprops.run_db_property(ck, eng, traces, [dbprops.mon_c09], with_replicas=True, nontrivial=nontrivial)
     ck.sample({"trace": dbengine.trace_to_json(traces[1][:12])})
